@@ -566,7 +566,7 @@ def _ca_tree(ca, ca_bits):
     return ca
 
 
-def standard_host_keys(key_algs, rsa_bits=3072, ca='ed25519', ca_bits=3072, cert_host_bits=None, ca_by_alg=None):
+def standard_host_keys(key_algs, rsa_bits=3072, ca='ed25519', ca_bits=3072, cert_host_bits=None, ca_by_alg=None, cert_fields=None):
     """Build host-key blobs for every algorithm in key_algs that the tool probes.  ca_by_alg {algorithm: (ca, ca_bits)} gives single
     certificates a CA of their own."""
     out = {}
@@ -584,9 +584,9 @@ def standard_host_keys(key_algs, rsa_bits=3072, ca='ed25519', ca_bits=3072, cert
         elif a == 'ssh-dss':
             out[a] = wire.dss_blob_tree()
         elif a in ('ssh-rsa-cert-v01@openssh.com', 'rsa-sha2-256-cert-v01@openssh.com', 'rsa-sha2-512-cert-v01@openssh.com'):
-            out[a] = wire.rsa_cert_tree(cert_host_bits or rsa_bits, ca_tree)
+            out[a] = wire.rsa_cert_tree(cert_host_bits or rsa_bits, ca_tree, fields=cert_fields)
         elif a == 'ssh-ed25519-cert-v01@openssh.com':
-            out[a] = wire.ed25519_cert_tree(ca_tree)
+            out[a] = wire.ed25519_cert_tree(ca_tree, fields=cert_fields)
         elif a == 'sk-ssh-ed25519@openssh.com':
             out[a] = wire.sk_ed25519_blob_tree()
         elif a == 'sk-ssh-ed25519-cert-v01@openssh.com':
